@@ -197,7 +197,7 @@ class InterpBase:
                 return list_get(seq, i % n if n else i)
             if fr.spec:
                 # out-of-range index in a specification denotes an arbitrary value (guards decide)
-                if seq.items is not None and (any(isinstance(x, Obj) for x in seq.items) or (not seq.items and seq.elem is None)):
+                if seq.items is not None and any(isinstance(x, Obj) for x in seq.items):
                     return Obj(None, {}, abstract="<no such element>")       # an object different from every existing one
                 c = to_symbolic(seq.copy())
                 return list_get(c, i if i >= 0 else i + n)
